@@ -101,6 +101,16 @@ def source_kw(rng, cls, half_init=0.0):
         excite()
         kw["vertices"] = tetra_vertices(rng)
         kw["faces"] = [[0, 1, 2], [0, 1, 3], [0, 2, 3], [1, 2, 3]]
+        # construction options: the mesh checks can be skipped (status caches stay None until needed),
+        # and the mesh may be open (a face missing)
+        if rng.random() < 0.5:
+            for opt in ("check_open", "check_disconnected", "check_selfintersecting", "reorient_faces"):
+                if rng.random() < 0.6:
+                    kw[opt] = "skip"
+        if rng.random() < 0.2:
+            kw["faces"] = kw["faces"][:3]
+            for opt in ("check_open", "reorient_faces"):
+                kw.setdefault(opt, rng.choice(["skip", "warn"]))
     elif cls == "Triangle":
         excite()
         maybe("vertices", tetra_vertices(rng)[:3])
@@ -114,7 +124,8 @@ def source_kw(rng, cls, half_init=0.0):
     elif cls == "Dipole":
         maybe("moment", nz_vec3(rng))
     elif cls == "CustomSource":
-        kw["field_func"] = rng.choice(["cb0", "cb1", "cb2", "cb3"])
+        if rng.random() >= half_init:  # a custom source without field function is legal to construct
+            kw["field_func"] = rng.choice(["cb0", "cb1", "cb2", "cb3"])
     else:
         raise ValueError(cls)
     return kw
